@@ -1,10 +1,9 @@
-(* C04 - from the tables to trees: the reference style and the all-parentheses style are adequate for every well-formed tree;
-   the style scanned from the code (Gen/Priority.v) is adequate for every well-formed tree that avoids the known triples.
-   Witnesses (vm_compute) for the known findings. *)
+(* C04 - from the tables to trees: the reference style, the all-parentheses style and the style scanned from the code
+   (Gen/Priority.v) are adequate for every well-formed tree. *)
 From Coq Require Import ZArith List Bool Arith Lia.
 Import ListNotations.
-Require Import PonyV.Model.C04Expr PonyV.Model.C04Parse PonyV.Model.C04Known PonyV.Model.C04FStr PonyV.Gen.Priority
-               PonyV.Proofs.C04Kinds PonyV.Proofs.C04Table PonyV.Proofs.C04Parse PonyV.Proofs.C04FStrProofs.
+Require Import PonyV.Model.C04Expr PonyV.Model.C04Parse PonyV.Model.C04FStr PonyV.Gen.Priority
+               PonyV.Proofs.C04Kinds PonyV.Proofs.C04Table PonyV.Proofs.C04Parse PonyV.Proofs.C04Mono PonyV.Proofs.C04FStrProofs.
 Open Scope nat_scope.
 
 Lemma covers_children_of : forall st,
@@ -44,35 +43,42 @@ Proof. intros e H. unfold good. rewrite H, (covers_of ref_style (fun k q c _ => 
 Lemma good_full : forall e, wf e = true -> good full_style e = true.
 Proof. intros e H. unfold good. rewrite H, (covers_of full_style (fun k q c _ => child_ok_full k q c) e H). reflexivity. Qed.
 
-(* the code's style on a tree that avoids the known triples *)
-Lemma covers_children_pony : forall k cs i,
-  children_allowed k i cs = true -> avoids_known_children k i cs = true -> covers_children pony_style k i cs = true.
+(* the code's style *)
+Lemma child_ok_pony : forall k q c, allowed k q c = true -> child_ok pony_style k q c = true.
 Proof.
-  intros k cs. induction cs as [|c cs IH]; intros i Ha Hk; [reflexivity|].
-  simpl in *. apply andb_prop in Ha. destruct Ha as [Ha1 Ha2]. apply andb_prop in Hk. destruct Hk as [Hk1 Hk2].
-  apply negb_true_iff in Hk1. rewrite (IH _ Ha2 Hk2). rewrite andb_true_r.
-  unfold child_ok. simpl. apply andb_true_intro. split.
-  - destruct (ref_needs k (pos_of k i) (ekind c)) eqn:E; [|reflexivity]. simpl. apply table_except_known; assumption.
-  - destruct (expr_kindb (ekind c)) eqn:Ek; [reflexivity|]. simpl. rewrite (items_never_wrapped _ _ _ Ek). reflexivity.
+  intros k q c Ha. unfold child_ok. simpl. apply andb_true_intro. split.
+  - destruct (ref_needs k q c) eqn:E; [|reflexivity]. simpl. apply table_covers. exact E.
+  - destruct (expr_kindb c) eqn:Ek; [reflexivity|]. simpl. rewrite (items_never_wrapped _ _ _ Ha Ek). reflexivity.
 Qed.
 
-Lemma covers_pony : forall e, wf e = true -> avoids_known e = true -> covers pony_style e = true.
-Proof.
-  induction e as [l cs IH] using expr_ind'. intros Hw Hk. simpl in *.
-  apply andb_prop in Hw. destruct Hw as [Hw Hw3]. apply andb_prop in Hw. destruct Hw as [_ Hw2].
-  apply andb_prop in Hk. destruct Hk as [Hk1 Hk2].
-  rewrite (covers_children_pony _ _ _ Hw2 Hk1). simpl. apply forallb_forall. intros c Hin.
-  rewrite Forall_forall in IH. rewrite forallb_forall in Hw3, Hk2. apply IH; [exact Hin|apply Hw3; exact Hin|apply Hk2; exact Hin].
-Qed.
+Lemma covers_pony : forall e, wf e = true -> covers pony_style e = true.
+Proof. apply covers_of. exact child_ok_pony. Qed.
 
-Lemma pony_roundtrip : forall e,
-  wf e = true -> avoids_known e = true -> (pony_keep_spec || spec_free e) = true -> kinds_ok pony_kind_ok e = true ->
+(* whatever the f-string / index-tuple flags of the code are: trees it does not distort *)
+Lemma pony_roundtrip_flags : forall e,
+  wf e = true -> (pony_keep_spec || spec_free e) = true -> (pony_short_idx || long_idx e) = true ->
   expr_kindb (ekind e) = true ->
   exists n, forall f, n <= f -> parse_top f (print pony_style e) = Some e.
 Proof.
-  intros e Hw Hk Hs _ He. apply print_parse_roundtrip; [|exact He].
-  unfold good. rewrite Hw, (covers_pony e Hw Hk). simpl. exact Hs.
+  intros e Hw Hs Hi He. apply print_parse_roundtrip; [|exact He].
+  unfold good. rewrite Hw, (covers_pony e Hw). cbn [andb]. unfold spec_ok, idx_ok. cbn [keep_spec short_idx pony_style].
+  rewrite Hs, Hi. reflexivity.
 Qed.
+
+(* with the flags the current source has (format specs printed, x[a,] and x[()] printed as such): every well-formed tree *)
+Lemma good_pony : forall e, wf e = true -> good pony_style e = true.
+Proof. intros e H. unfold good. rewrite H, (covers_pony e H). reflexivity. Qed.
+
+Lemma pony_roundtrip : forall e, wf e = true -> expr_kindb (ekind e) = true ->
+  exists n, forall f, n <= f -> parse_top f (print pony_style e) = Some e.
+Proof. intros e Hw He. apply print_parse_roundtrip; [apply good_pony; exact Hw|exact He]. Qed.
+
+Lemma pony_unique : forall e, wf e = true -> expr_kindb (ekind e) = true ->
+  forall f e', parse_top f (print pony_style e) = Some e' -> e' = e.
+Proof. intros e Hw He. apply roundtrip_unique; [apply good_pony; exact Hw|exact He]. Qed.
+
+Lemma pony_kinds_all : forall k, pony_kind_ok k = true.
+Proof. intros k. destruct k; reflexivity. Qed.
 
 Lemma ref_roundtrip : forall e, wf e = true -> expr_kindb (ekind e) = true ->
   exists n, forall f, n <= f -> parse_top f (print ref_style e) = Some e.
@@ -82,12 +88,11 @@ Lemma full_roundtrip : forall e, wf e = true -> expr_kindb (ekind e) = true ->
   exists n, forall f, n <= f -> parse_top f (print full_style e) = Some e.
 Proof. intros e Hw He. apply print_parse_roundtrip; [apply good_full; exact Hw|exact He]. Qed.
 
-Lemma pony_fstring : forall v, normal_f false v = true ->
-  (pony_escape_braces = true \/ brace_free v = true) -> (pony_keep_spec = true \/ no_spec v = true) ->
-  parse_f (print_f pony_escape_braces pony_keep_spec v) = Some v.
-Proof. intros. apply fstring_roundtrip_flags; assumption. Qed.
+(* f-string bodies with the code's own flags: every value in normal form *)
+Lemma pony_fstring : forall v, normal_f false v = true -> parse_f (print_f pony_escape_braces pony_keep_spec v) = Some v.
+Proof. intros v H. apply fstring_roundtrip_flags; [exact H|left; reflexivity|left; reflexivity]. Qed.
 
-(* ---------------------------------------------------------------- witnesses *)
+(* ---------------------------------------------------------------- a sample tree *)
 
 Definition nm (c : Z) : expr := Node (LName [c]) [].
 Definition A := nm 97. Definition B := nm 98. Definition C := nm 99. Definition X := nm 120. Definition Y := nm 121.
@@ -98,78 +103,18 @@ Definition call (f : expr) (args : list expr) := Node (LOp KCall) (f :: args).
 Definition ifexp (body test orelse : expr) := Node (LOp KIfExp) [body; test; orelse].
 Definition upper : str := [117; 112; 112; 101; 114]%Z.
 
-(* (x + y).upper()  is printed  x + y.upper(), which Python reads as  x + (y.upper()) *)
-Lemma w_receiver_attribute :
-  parse_auto (print pony_style (call (attr (add X Y) upper) [])) = Some (add X (call (attr Y upper) [])).
-Proof. vm_compute. reflexivity. Qed.
-
-(* (x + y)(a)  is printed  x + y(a) *)
-Lemma w_receiver_call : parse_auto (print pony_style (call (add X Y) [A])) = Some (add X (call Y [A])).
-Proof. vm_compute. reflexivity. Qed.
-
-(* (x + y)[a]  is printed  x + y[a] *)
-Lemma w_receiver_subscript :
-  parse_auto (print pony_style (Node (LOp KSubscript) [add X Y; A])) = Some (add X (Node (LOp KSubscript) [Y; A])).
-Proof. vm_compute. reflexivity. Qed.
-
-(* x == (a if c else b) + 1  is printed  x == a if c else b + 1, read as (x == a) if c else (b + 1) *)
-Lemma w_ifexp_child :
-  parse_auto (print pony_style (Node (LCompare [CEq]) [X; add (ifexp A C B) one]))
-  = Some (ifexp (Node (LCompare [CEq]) [X; A]) C (add B one)).
-Proof. vm_compute. reflexivity. Qed.
-
-(* (a if b else c) if x else y  is printed  a if b else c if x else y, read as a if b else (c if x else y) *)
-Lemma w_ifexp_body : parse_auto (print pony_style (ifexp (ifexp A B C) X Y)) = Some (ifexp A B (ifexp C X Y)).
-Proof. vm_compute. reflexivity. Qed.
-
-(* (lambda: x)()  is printed  lambda : x(), read as lambda: (x()) *)
-Lemma w_lambda_child :
-  parse_auto (print pony_style (call (Node (LLambda []) [X]) [])) = Some (Node (LLambda []) [call X []]).
-Proof. vm_compute. reflexivity. Qed.
-
-(* a folded constant -1 as base of a power: printed  -1 ** y, read as -(1 ** y) *)
-Lemma w_negconst_pow :
-  parse_auto (print pony_style (Node (LOp KPow) [Node (LNegConst [49]%Z) []; Y]))
-  = Some (Node (LOp KUSub) [Node (LOp KPow) [one; Y]]).
-Proof. vm_compute. reflexivity. Qed.
-
-(* [*(a or b)]  is printed  [*a or b], which is not an expression *)
-Lemma w_starred_element :
-  parse_auto (print pony_style (Node (LOp KList) [Node (LOp KStarElt) [Node (LOp KOr) [A; B]]])) = None.
-Proof. vm_compute. reflexivity. Qed.
-
-(* f'{a:>3}' and f'{a}' are printed alike: the format spec is dropped *)
-Lemma w_fstring_spec :
-  print pony_style (Node (LJoined [[]; []]) [Node (LFormatted None (Some [62; 51]%Z)) [A]])
-  = print pony_style (Node (LJoined [[]; []]) [Node (LFormatted None None) [A]]).
-Proof. vm_compute. reflexivity. Qed.
-
-(* the literal text {x} is printed without doubling the braces and is read back as a replacement field *)
-Lemma w_fstring_brace :
-  parse_f (print_f pony_escape_braces pony_keep_spec [FLit [123; 120; 125]%Z]) = Some [FField [120]%Z None None].
-Proof. vm_compute. reflexivity. Qed.
-
-(* x[a,] and x[a] are printed alike: the comma of the one-element index tuple is lost *)
-Lemma w_index_tuple_one :
-  print pony_style (Node (LOp KSubscript) [X; Node (LOp KIdxTuple) [A]]) = print pony_style (Node (LOp KSubscript) [X; A]).
-Proof. vm_compute. reflexivity. Qed.
-
-(* x[()] is printed x[], which is not an expression *)
-Lemma w_index_tuple_empty : parse_auto (print pony_style (Node (LOp KSubscript) [X; Node (LOp KIdxTuple) []])) = None.
-Proof. vm_compute. reflexivity. Qed.
-
-(* postInvert reads node.expr, a field UnaryOp does not have: ~x cannot be printed at all *)
-Lemma w_invert : pony_kind_ok KInvert = false.
-Proof. vm_compute. reflexivity. Qed.
-
-(* the positive theorems are not vacuous: a deep tree with operators of many levels, which the code prints correctly *)
+(* operators of many levels, a chain, nested powers and unary minus, receivers that need parentheses, a conditional as operand,
+   a lambda that is called, a slice, a one-element index tuple, a starred argument, a keyword, an f-string with conversion and spec *)
 Definition sample : expr :=
   Node (LOp KOr) [Node (LOp KNot) [Node (LCompare [CLt; CLtE]) [A; Node (LOp KSub) [B; Node (LOp KSub) [C; one]]; X]];
-                  Node (LOp KPow) [Node (LOp KUSub) [A]; Node (LOp KPow) [B; Node (LOp KUSub) [C]]];
+                  Node (LOp KPow) [Node (LOp KPow) [Node (LOp KUSub) [A]; B]; Node (LOp KPow) [B; Node (LOp KUSub) [C]]];
+                  call (attr (add X Y) upper) [];
+                  add (ifexp A C B) one;
+                  call (Node (LLambda [[117]%Z]) [add (nm 117) A]) [B];
+                  Node (LOp KSubscript) [add X Y; Node (LOp KIdxTuple) [A]];
+                  Node (LJoined [[123; 120; 125]%Z; []]) [Node (LFormatted (Some 114%Z) (Some [62; 51]%Z)) [add A B]];
                   call (attr (Node (LOp KSubscript) [X; Node (LSlice true false true) [A; B]]) upper)
                        [Node (LOp KStarArg) [Y]; Node (LKeyword (Some [107]%Z)) [Node (LOp KMult) [add A B; C]]]].
 
-Lemma sample_ok :
-  wf sample = true /\ avoids_known sample = true /\ spec_free sample = true /\ kinds_ok pony_kind_ok sample = true /\
-  parse_auto (print pony_style sample) = Some sample.
-Proof. vm_compute. repeat split; reflexivity. Qed.
+Lemma sample_ok : wf sample = true /\ parse_auto (print pony_style sample) = Some sample.
+Proof. vm_compute. split; reflexivity. Qed.
